@@ -428,3 +428,20 @@ Print Assumptions c03_flow_shape.
 Print Assumptions c03_flow_valid.
 Print Assumptions c03_from_request.
 Print Assumptions c03_flow_nonvacuous.
+
+(* ================================================================== the code's own arithmetic (translated fragment) *)
+(** The expression that sizes one chunk ("the input, the chunk-size limit and the largest chunk that fits the output, whichever is
+    smallest") is translated from src/body.rs::write_chunk on every run (theories/Gen.v, FRAGMENTS of tools/rs2coq.py);
+    proofs/Gen_equiv_frag.v proves it equal to that minimum for all arguments and to what the model's [write_chunk] computes. *)
+From Hoot.proofs Require Import Gen_equiv_frag.
+Theorem c03_code_chunk_size : forall input_len max_chunk available,
+  gen_chunk_to_write input_len max_chunk available = N.min (N.min input_len max_chunk) available.
+Proof. exact gen_chunk_to_write_spec. Qed.
+Theorem c03_code_write_chunk_is_model : forall input avail maxc,
+  write_chunk input avail maxc =
+  let n := gen_chunk_to_write (len input) maxc (max_chunk_fit avail maxc) in
+  if n =? 0 then None
+  else if len (enc_chunk_n n input) <=? avail then Some (n, enc_chunk_n n input) else None.
+Proof. exact write_chunk_gen. Qed.
+Print Assumptions c03_code_chunk_size.
+Print Assumptions c03_code_write_chunk_is_model.
